@@ -3,6 +3,14 @@
 //! output = (1 items rep len) | (0) constructor error | (2 items) more items than exist
 //!          | (-777) panic | (-778) hang;   items = ((tag ok id) ...)
 //! Every drain of the real generator runs on a helper thread under a watchdog.
+//! rng cases (strat = 3): input = (3 (seed-hi seed-lo) script ()); the REAL
+//! `ChaCha8Rng::seed_from_u64(seed)` (rand_chacha / rand of /repo's lock file) is driven through the
+//! script of sampler calls; output = (results (block-hi block-lo offset)), see `rng_script`.
+use rand::distr::weighted::WeightedIndex;
+use rand::distr::Distribution as _;
+use rand::seq::SliceRandom;
+use rand::{Rng as _, RngCore, SeedableRng};
+use rand_chacha::ChaCha8Rng;
 use std::io::Write as _;
 use std::path::PathBuf;
 use text_utils::data::loading::{
@@ -142,6 +150,559 @@ fn drain_caught(files: &[PathBuf], strat: i64, seed: u64, cap: usize) -> Val {
         Err(e) if e.downcast_ref::<Spin>().is_some() => Val::L(vec![Val::I(-778), Val::I(0)]),
         Err(_) => Val::panic(),
     }
+}
+
+
+// ---------------------------------------------------------------- rng scripts (RNG_Model.v)
+
+/// a u64 as two 32-bit halves (numbers on the wire stay below 2^62)
+fn hl(x: u64) -> Val {
+    Val::L(vec![Val::I((x >> 32) as i64), Val::I((x & 0xffff_ffff) as i64)])
+}
+
+fn un_hl(v: &Val) -> Option<u64> {
+    let l = v.as_l()?;
+    if l.len() != 2 {
+        return None;
+    }
+    let (h, lo) = (l[0].as_i()?, l[1].as_i()?);
+    if !(0..1i64 << 32).contains(&h) || !(0..1i64 << 32).contains(&lo) {
+        return None;
+    }
+    Some(((h as u64) << 32) | lo as u64)
+}
+
+/// f64 weight on the wire: (0 m e) = m * 2^e canonical (-0.0 is sent as zero), (1 0 0) +inf,
+/// (2 0 0) NaN, (3 0 0) negative
+fn f64_val(x: f64) -> Val {
+    let t = |k: i64, m: i64, e: i64| Val::L(vec![Val::I(k), Val::I(m), Val::I(e)]);
+    if x.is_nan() {
+        t(2, 0, 0)
+    } else if x == f64::INFINITY {
+        t(1, 0, 0)
+    } else if x < 0.0 {
+        t(3, 0, 0)
+    } else {
+        let b = x.to_bits() & !(1u64 << 63);
+        let (e, f) = ((b >> 52) as i64, (b & ((1u64 << 52) - 1)) as i64);
+        if e == 0 {
+            t(0, f, -1074)
+        } else {
+            t(0, f + (1i64 << 52), e - 1075)
+        }
+    }
+}
+
+/// inverse of `f64_val`; `None` unless canonical
+fn val_f64(v: &Val) -> Option<f64> {
+    let l = v.as_l()?;
+    if l.len() != 3 {
+        return None;
+    }
+    let (k, m, e) = (l[0].as_i()?, l[1].as_i()?, l[2].as_i()?);
+    match k {
+        1 if m == 0 && e == 0 => Some(f64::INFINITY),
+        2 if m == 0 && e == 0 => Some(f64::NAN),
+        3 if m == 0 && e == 0 => Some(-1.0),
+        0 => {
+            if (0..1i64 << 52).contains(&m) && e == -1074 {
+                Some(f64::from_bits(m as u64))
+            } else if (1i64 << 52..1i64 << 53).contains(&m) && (-1074..=971).contains(&e) {
+                Some(f64::from_bits((((e + 1075) as u64) << 52) | (m as u64 - (1u64 << 52))))
+            } else {
+                None
+            }
+        }
+        _ => None,
+    }
+}
+
+#[derive(Clone, Debug)]
+enum Call {
+    U32,
+    U64,
+    F64,
+    Range(u64),
+    Shuffle(usize),
+    WeightedN(Vec<u64>),
+    WeightedF(Vec<f64>),
+    SetPos(u64, u32),
+    Partial(u64, usize, bool),
+}
+
+const MAX_SHUFFLE: usize = 1500;
+const MAX_PARTIAL_SHOWN: u64 = 1 << 21;
+
+fn call_val(c: &Call) -> Val {
+    match c {
+        Call::U32 => Val::L(vec![Val::I(0)]),
+        Call::U64 => Val::L(vec![Val::I(1)]),
+        Call::F64 => Val::L(vec![Val::I(2)]),
+        Call::Range(n) => Val::L(vec![Val::I(3), hl(*n)]),
+        Call::Shuffle(m) => Val::L(vec![Val::I(4), Val::u(*m)]),
+        Call::WeightedN(ws) => Val::L(vec![Val::I(5), Val::L(ws.iter().map(|w| hl(*w)).collect())]),
+        Call::WeightedF(ws) => Val::L(vec![Val::I(6), Val::L(ws.iter().map(|w| f64_val(*w)).collect())]),
+        Call::SetPos(b, off) => Val::L(vec![Val::I(7), hl(*b), Val::I(*off as i64)]),
+        Call::Partial(len, amount, show) => Val::L(vec![Val::I(8), hl(*len), Val::u(*amount), Val::b(*show)]),
+    }
+}
+
+fn val_call(v: &Val) -> Option<Call> {
+    let l = v.as_l()?;
+    let arity = |n: usize| if l.len() == n { Some(()) } else { None };
+    Some(match l.first()?.as_i()? {
+        0 => {
+            arity(1)?;
+            Call::U32
+        }
+        1 => {
+            arity(1)?;
+            Call::U64
+        }
+        2 => {
+            arity(1)?;
+            Call::F64
+        }
+        3 => {
+            arity(2)?;
+            Call::Range(un_hl(&l[1])?)
+        }
+        4 => {
+            arity(2)?;
+            let m = l[1].as_usize()?;
+            if m > MAX_SHUFFLE {
+                return None;
+            }
+            Call::Shuffle(m)
+        }
+        5 => {
+            arity(2)?;
+            let ws = l[1].as_l()?;
+            if ws.len() > 16 {
+                return None;
+            }
+            Call::WeightedN(ws.iter().map(un_hl).collect::<Option<Vec<u64>>>()?)
+        }
+        6 => {
+            arity(2)?;
+            let ws = l[1].as_l()?;
+            if ws.len() > 16 {
+                return None;
+            }
+            Call::WeightedF(ws.iter().map(val_f64).collect::<Option<Vec<f64>>>()?)
+        }
+        7 => {
+            arity(3)?;
+            let off = l[2].as_i()?;
+            if !(0..16).contains(&off) {
+                return None;
+            }
+            Call::SetPos(un_hl(&l[1])?, off as u32)
+        }
+        8 => {
+            arity(4)?;
+            let (len, amount, show) = (un_hl(&l[1])?, l[2].as_usize()?, l[3].as_bool()?);
+            if amount > 64 || (show && len > MAX_PARTIAL_SHOWN) || len > (1u64 << 40) {
+                return None;
+            }
+            Call::Partial(len, amount, show)
+        }
+        _ => return None,
+    })
+}
+
+fn werr_code(e: rand::distr::weighted::Error) -> i64 {
+    use rand::distr::weighted::Error as E;
+    match e {
+        E::InvalidInput => 1,
+        E::InvalidWeight => 2,
+        E::InsufficientNonZero => 3,
+        E::Overflow => 4,
+        _ => 9,
+    }
+}
+
+fn werr(code: i64) -> Val {
+    Val::L(vec![Val::I(-1), Val::I(code)])
+}
+
+/// the indices `partial_shuffle` drew, recovered from the slice it left behind: going backwards,
+/// before the swap of step i position i still held its initial value i
+fn partial_indices(v: &mut [u32], m: usize) -> Vec<usize> {
+    let len = v.len();
+    let mut pos = vec![0u32; len];
+    for (p, x) in v.iter().enumerate() {
+        pos[*x as usize] = p as u32;
+    }
+    let mut idx = vec![0usize; len - m];
+    for i in (m..len).rev() {
+        let j = pos[i] as usize;
+        idx[i - m] = j;
+        let (a, b) = (v[i], v[j]);
+        v.swap(i, j);
+        pos[a as usize] = j as u32;
+        pos[b as usize] = i as u32;
+    }
+    idx
+}
+
+/// drive the REAL generator through the script; tags say what the draws exercised
+fn rng_script(seed: u64, script: &[Call], tags: &mut Vec<String>) -> Val {
+    use std::panic::{catch_unwind, AssertUnwindSafe};
+    let mut r = ChaCha8Rng::seed_from_u64(seed);
+    let mut outs = vec![];
+    let mut tag = |t: &str| {
+        if !tags.iter().any(|x| x == t) {
+            tags.push(t.to_string());
+        }
+    };
+    for c in script {
+        let before = r.get_word_pos();
+        let straddles = |words: u128| before % 64 + words > 64 && before % 64 != 0;
+        let o = match c {
+            Call::U32 => Val::I(r.next_u32() as i64),
+            Call::U64 => {
+                if straddles(2) {
+                    tag("straddle");
+                }
+                hl(r.next_u64())
+            }
+            Call::F64 => {
+                let x: f64 = r.random();
+                let k = x * 9007199254740992.0;
+                if !(0.0..9007199254740992.0).contains(&k) || k.fract() != 0.0 {
+                    return Val::L(vec![Val::I(-6)]);
+                }
+                Val::I(k as i64)
+            }
+            Call::Range(n) => {
+                let n = *n as usize;
+                match catch_unwind(AssertUnwindSafe(|| r.random_range(0..n))) {
+                    Ok(x) => {
+                        let width: u128 = if n > u32::MAX as usize { 2 } else { 1 };
+                        if width == 2 {
+                            tag("range64");
+                        }
+                        if r.get_word_pos().wrapping_sub(before) > width {
+                            tag("redraw");
+                        }
+                        hl(x as u64)
+                    }
+                    Err(_) => Val::panic(),
+                }
+            }
+            Call::Shuffle(m) => {
+                let mut v: Vec<usize> = (0..*m).collect();
+                v.shuffle(&mut r);
+                if r.get_word_pos().wrapping_sub(before) > 1 {
+                    tag("chunks");
+                }
+                Val::list(v, Val::u)
+            }
+            Call::WeightedN(ws) => {
+                let ws: Vec<usize> = ws.iter().map(|w| *w as usize).collect();
+                let total: u128 = ws.iter().map(|w| *w as u128).sum();
+                match catch_unwind(AssertUnwindSafe(|| WeightedIndex::new(ws))) {
+                    Err(_) => werr(5),
+                    Ok(Err(e)) => werr(werr_code(e)),
+                    Ok(Ok(d)) => {
+                        let i = r.sample(d);
+                        let width: u128 = if total > (1u128 << 32) { 2 } else { 1 };
+                        if width == 2 {
+                            tag("weighted64");
+                        }
+                        if r.get_word_pos().wrapping_sub(before) > width {
+                            tag("reject");
+                        }
+                        Val::L(vec![Val::u(i)])
+                    }
+                }
+            }
+            Call::WeightedF(ws) => match catch_unwind(AssertUnwindSafe(|| WeightedIndex::new(ws.clone()))) {
+                Err(_) => werr(5),
+                Ok(Err(e)) => werr(werr_code(e)),
+                Ok(Ok(d)) => Val::L(vec![Val::u(d.sample(&mut r))]),
+            },
+            Call::SetPos(b, off) => {
+                r.set_word_pos((*b as u128) * 16 + *off as u128);
+                Val::L(vec![])
+            }
+            Call::Partial(len, amount, show) => {
+                let len = *len as usize;
+                if *show {
+                    let mut v: Vec<u32> = (0..len as u32).collect();
+                    v.partial_shuffle(&mut r, *amount);
+                    let m = len.saturating_sub(*amount);
+                    Val::list(partial_indices(&mut v, m), Val::u)
+                } else {
+                    // a slice of zero-sized elements: only the draws happen
+                    let mut v = vec![(); len];
+                    v.partial_shuffle(&mut r, *amount);
+                    if len >= u32::MAX as usize {
+                        tag("shuffle-slow-path");
+                    }
+                    Val::L(vec![])
+                }
+            }
+        };
+        outs.push(o);
+    }
+    let wp = r.get_word_pos();
+    let block = (wp / 16) as u64;
+    Val::L(vec![
+        Val::L(outs),
+        Val::L(vec![Val::I((block >> 32) as i64), Val::I((block & 0xffff_ffff) as i64), Val::I((wp % 16) as i64)]),
+    ])
+}
+
+/// n dense around the powers of two, around 2^32 (where the sampled width switches) and where
+/// the second draw of the range sampler is likely (n close to 2^32 resp. 2^64)
+fn gen_bound(rng: &mut Rng) -> u64 {
+    let around = |rng: &mut Rng, c: u64| -> u64 {
+        let d = rng.below(7) as u64;
+        if rng.chance(1, 2) { c.wrapping_add(d) } else { c.wrapping_sub(d) }
+    };
+    match rng.below(100) {
+        0..=1 => 0,
+        2..=19 => rng.range(1, 20) as u64,
+        20..=39 => {
+            let k = rng.below(64) as u32;
+            around(rng, 1u64 << k).max(1)
+        }
+        40..=54 => around(rng, 1u64 << 32),
+        55..=64 => (1u64 << 31) + (rng.next_u64() >> 33),      // u32, second draw in half the cases
+        65..=72 => (1u64 << 63) + (rng.next_u64() >> 1),       // u64, second draw in most cases
+        73..=78 => u64::MAX - rng.below(4) as u64,
+        79..=84 => (1u64 << 32) - 1 - rng.below(4) as u64,
+        85..=92 => rng.next_u64() >> rng.below(64),
+        _ => rng.range(21, 5000) as u64,
+    }
+}
+
+fn gen_weights_n(rng: &mut Rng) -> Vec<u64> {
+    let n = match rng.below(20) {
+        0 => 0,
+        1..=3 => 1,
+        _ => rng.range(2, 6),
+    };
+    let mut ws: Vec<u64> = (0..n)
+        .map(|_| match rng.below(10) {
+            0..=2 => 0,
+            3..=7 => rng.range(1, 6) as u64,
+            _ => rng.range(7, 1000) as u64,
+        })
+        .collect();
+    if n == 0 {
+        return ws;
+    }
+    // push the total near a boundary of the uniform sampler
+    let k = rng.below(n);
+    match rng.below(12) {
+        0 => ws[k] = (1u64 << 31) + (rng.next_u64() >> 34),
+        1 => ws[k] = (1u64 << 32) - rng.below(6) as u64,
+        2 => {
+            // total exactly 2^32 (range 0: every u32 is taken)
+            let rest: u64 = ws.iter().enumerate().filter(|(i, _)| *i != k).map(|(_, w)| *w).sum();
+            ws[k] = (1u64 << 32) - rest;
+        }
+        3 => ws[k] = (1u64 << 32) + rng.below(6) as u64,
+        4 => ws[k] = (1u64 << 63) + (rng.next_u64() >> 2),
+        5 => {
+            // overflow of the sum
+            ws[k] = u64::MAX - rng.below(3) as u64;
+        }
+        6 => ws[k] = (rng.next_u64() >> rng.below(64)).max(1),
+        7 => ws.iter_mut().for_each(|w| *w = 0),
+        _ => {}
+    }
+    ws
+}
+
+fn gen_weights_f(rng: &mut Rng) -> Vec<f64> {
+    let n = match rng.below(20) {
+        0 => 0,
+        1..=3 => 1,
+        _ => rng.range(2, 6),
+    };
+    let style = rng.below(10);
+    (0..n)
+        .map(|_| match rng.below(24) {
+            0..=4 => 0.0,
+            5 => -0.0,
+            6..=9 => *rng.pick(&[1.0, 0.5, 0.25, 3.0, 2.0, 0.1, 0.3, 1e-3, 7.0]),
+            10..=15 => {
+                // random mantissa, moderate exponent
+                let e = 1023 + rng.range(0, 20) as u64 - 10;
+                f64::from_bits((e << 52) | (rng.next_u64() >> 12))
+            }
+            16 if style == 0 => f64::from_bits(rng.next_u64() >> 12 >> rng.below(52)), // subnormal
+            17 if style == 1 => f64::MAX / (1.0 + rng.below(3) as f64),                   // the sum overflows
+            18 if style == 2 => f64::INFINITY,
+            19 if style == 3 => f64::NAN,
+            20 if style == 4 => -1.5,
+            21 if style == 5 => f64::from_bits(rng.next_u64() >> 1),                      // anything non-negative
+            _ => rng.range(1, 9) as f64 / 8.0,
+        })
+        .collect()
+}
+
+fn gen_call(rng: &mut Rng) -> Call {
+    match rng.below(100) {
+        0..=9 => Call::U32,
+        10..=19 => Call::U64,
+        20..=29 => Call::F64,
+        30..=51 => Call::Range(gen_bound(rng)),
+        52..=65 => Call::Shuffle(match rng.below(12) {
+            0 => rng.below(3),
+            1..=5 => rng.range(2, 16),
+            6..=8 => rng.range(10, 40),
+            9..=10 => rng.range(40, 200),
+            _ => rng.range(200, MAX_SHUFFLE),
+        }),
+        66..=79 => Call::WeightedN(gen_weights_n(rng)),
+        80..=89 => Call::WeightedF(gen_weights_f(rng)),
+        90..=93 => {
+            // jump: around 2^32 blocks (the counter's low word carries), around 2^64 (it wraps), anywhere
+            let b = match rng.below(4) {
+                0 => (1u64 << 32).wrapping_sub(rng.range(1, 9) as u64),
+                1 => 0u64.wrapping_sub(rng.range(1, 9) as u64),
+                2 => rng.next_u64(),
+                _ => rng.below(1000) as u64,
+            };
+            Call::SetPos(b, rng.below(16) as u32)
+        }
+        _ => {
+            if rng.chance(3, 4) {
+                // indices reported: product sizes of IncreasingUniform change with n
+                let len = match rng.below(5) {
+                    0 => rng.range(0, 30) as u64,
+                    1 => rng.range(30, 2000) as u64,
+                    2 => rng.range(1500, 1800) as u64,       // n (n+1) (n+2) around 2^32
+                    3 => rng.range(65_400, 65_700) as u64,   // n (n+1) around 2^32
+                    _ => rng.range(2000, MAX_PARTIAL_SHOWN as usize) as u64,
+                };
+                Call::Partial(len, rng.range(0, 12), true)
+            } else {
+                let len = match rng.below(3) {
+                    0 => (u32::MAX as u64).wrapping_sub(rng.below(4) as u64).wrapping_add(rng.below(4) as u64),
+                    1 => (1u64 << 32) + rng.below(1000) as u64,
+                    _ => (1u64 << 33) + (rng.next_u64() >> 30),
+                };
+                Call::Partial(len, rng.range(0, 6), false)
+            }
+        }
+    }
+}
+
+fn gen_rng_case(rng: &mut Rng) -> Val {
+    let seed = match rng.below(12) {
+        0 => 0,
+        1 => 1,
+        2 => 22,
+        3 => 1u64 << 63,
+        4 => u64::MAX,
+        5 => rng.below(1000) as u64,
+        _ => rng.next_u64(),
+    };
+    let n = if rng.chance(1, 10) { rng.range(1, 3) } else { rng.range(1, 40) };
+    let mut script: Vec<Call> = vec![];
+    // sometimes start just before the end of the 64-word buffer so that u64 draws straddle it
+    if rng.chance(1, 4) {
+        for _ in 0..rng.range(59, 63) {
+            script.push(Call::U32);
+        }
+    }
+    // a run of one kind now and then (rejections and re-draws are rare events per call)
+    let mono = if rng.chance(1, 5) { Some(gen_call(rng)) } else { None };
+    for _ in 0..n {
+        script.push(match &mono {
+            Some(c) if rng.chance(3, 4) => match c {
+                Call::Range(_) => Call::Range(gen_bound(rng)),
+                Call::WeightedN(ws) if rng.chance(1, 2) => Call::WeightedN(ws.clone()),
+                other => other.clone(),
+            },
+            _ => gen_call(rng),
+        });
+    }
+    script.truncate(100);
+    rng_case(seed, &script)
+}
+
+fn rng_case(seed: u64, script: &[Call]) -> Val {
+    Val::L(vec![Val::I(3), hl(seed), Val::L(script.iter().map(call_val).collect()), Val::L(vec![])])
+}
+
+fn run_rng_case(input: &Val) -> Option<(Val, Vec<String>)> {
+    let l = input.as_l()?;
+    if l.len() != 4 || !l[3].as_l()?.is_empty() {
+        return None;
+    }
+    let seed = un_hl(&l[1])?;
+    let script: Vec<Call> = l[2].as_l()?.iter().map(val_call).collect::<Option<Vec<Call>>>()?;
+    if script.len() > 120 {
+        return None;
+    }
+    let mut tags = vec!["rng".to_string()];
+    let out = rng_script(seed, &script, &mut tags);
+    let samplers = script
+        .iter()
+        .filter(|c| matches!(c, Call::Range(_) | Call::Shuffle(_) | Call::WeightedN(_) | Call::WeightedF(_) | Call::Partial(..)))
+        .count();
+    if script.len() >= 3 && samplers >= 1 {
+        tags.push("nt".into());
+    }
+    Some((out, tags))
+}
+
+/// repair a (shrunk / hand-written) rng case: drop calls that cannot be read, clamp fields
+fn canon_rng_case(input: &Val) -> Option<Val> {
+    let l = input.as_l()?;
+    if l.len() != 4 {
+        return None;
+    }
+    let fix_hl = |v: &Val| -> Val {
+        let h = v.nth(0).and_then(|x| x.as_i()).unwrap_or(0).rem_euclid(1 << 32);
+        let lo = v.nth(1).and_then(|x| x.as_i()).unwrap_or(0).rem_euclid(1 << 32);
+        Val::L(vec![Val::I(h), Val::I(lo)])
+    };
+    let seed = fix_hl(&l[1]);
+    let mut script = vec![];
+    for c in l[2].as_l()? {
+        let Some(cl) = c.as_l() else { continue };
+        let kind = cl.first().and_then(|x| x.as_i()).unwrap_or(0).rem_euclid(9);
+        let arg = |k: usize| cl.get(k).cloned().unwrap_or(Val::L(vec![]));
+        let num = |k: usize, m: i64| Val::I(cl.get(k).and_then(|x| x.as_i()).unwrap_or(0).rem_euclid(m));
+        let fixed = match kind {
+            0..=2 => Val::L(vec![Val::I(kind)]),
+            3 => Val::L(vec![Val::I(3), fix_hl(&arg(1))]),
+            4 => Val::L(vec![Val::I(4), num(1, MAX_SHUFFLE as i64 + 1)]),
+            5 => Val::L(vec![
+                Val::I(5),
+                Val::L(arg(1).as_l().unwrap_or(&[]).iter().take(16).map(fix_hl).collect()),
+            ]),
+            6 => Val::L(vec![
+                Val::I(6),
+                Val::L(
+                    arg(1)
+                        .as_l()
+                        .unwrap_or(&[])
+                        .iter()
+                        .take(16)
+                        .map(|w| val_f64(w).map(f64_val).unwrap_or_else(|| f64_val(0.0)))
+                        .collect(),
+                ),
+            ]),
+            7 => Val::L(vec![Val::I(7), fix_hl(&arg(1)), num(2, 16)]),
+            _ => {
+                let show = cl.get(3).and_then(|x| x.as_bool()).unwrap_or(true);
+                let len = un_hl(&fix_hl(&arg(1))).unwrap_or(0);
+                let len = if show { len.min(MAX_PARTIAL_SHOWN) } else { len.min(1 << 40) };
+                Val::L(vec![Val::I(8), hl(len), num(2, 65), Val::b(show)])
+            }
+        };
+        script.push(fixed);
+    }
+    Some(Val::L(vec![Val::I(3), seed, Val::L(script), Val::L(vec![])]))
 }
 
 type Srcs = Vec<Vec<(i64, i64)>>;
@@ -304,6 +865,9 @@ fn case(strat: i64, seed: u64, lens: &[usize], rng: &mut Rng, malformed: bool) -
 
 impl Prop for C07 {
     fn gen(&mut self, rng: &mut Rng, tier: Tier, _i: usize, _n: usize) -> Val {
+        if rng.chance(3, 10) {
+            return gen_rng_case(rng);
+        }
         let strat = rng.below(3) as i64;
         let seed = match rng.below(8) {
             0 => 0,
@@ -385,6 +949,9 @@ impl Prop for C07 {
     }
 
     fn run(&mut self, input: &Val) -> Option<(Val, Vec<String>)> {
+        if input.nth(0).and_then(|v| v.as_i()) == Some(3) {
+            return run_rng_case(input);
+        }
         let (strat, seed, srcs) = parse_input(input)?;
         if !(0..3).contains(&strat) || srcs.is_empty() || srcs.len() > 8 {
             return None; // the callers of the generator refuse an empty file list
@@ -435,6 +1002,9 @@ impl Prop for C07 {
         let l = input.as_l()?;
         if l.len() != 4 {
             return None;
+        }
+        if l[0].as_i() == Some(3) {
+            return canon_rng_case(input);
         }
         let strat = l[0].as_i()?.rem_euclid(3);
         let seed = l[1].as_i()?.unsigned_abs() & ((1 << 62) - 1);
